@@ -245,6 +245,7 @@ MC_PLAN = {
     "C06": [("MC_SubSlot", None, "MC_SubSlot.cfg", "+1w", "trace"), ("MC_Alap", None, "MC_Alap.cfg", "+1w", "trace")],
     "C08": [("MC_Alap", None, "MC_Alap.cfg", "+1w", "trace"), ("MC_Core", None, "MC_Core.cfg", "+1w", "trace")],
     "C04": [("MC_Alap", None, "MC_AlapFull.cfg", "+1w", "trace")],
+    "C05": [("MC_Limits", None, "MC_Limits.cfg", "+2w", "trace")],
 }
 
 
